@@ -149,7 +149,18 @@ type Proc struct {
 // The step that contains the registration waits for it before it returns to the test.
 func (p *Proc) eagerly(fn func()) {
 	p.eager.Add(1)
+	returned := make(chan struct{})
+	defer func() {
+		// the adversarial schedule, made deterministic: the callback gets ahead of the registering call.
+		// If it cannot finish (it waits for a lock the registering call holds) the call goes on after a
+		// moment and the callback completes later.
+		select {
+		case <-returned:
+		case <-time.After(20 * time.Millisecond):
+		}
+	}()
 	go func() {
+		defer close(returned)
 		defer p.eager.Done()
 		defer func() {
 			if r := recover(); r != nil {
